@@ -121,12 +121,13 @@ def mark_family_specs(orders=None):
     """F-marks: enumerated family of mark configurations over 3 mark types A, B, C
     (A carries an `id` attribute so two different A marks can coexist / exclude each other).
 
-    excludes of each in {absent, '', '_', 'A', 'B', 'C', 'B C', 'grp'} (B and C are in group 'grp');
+    excludes of each in {absent, '', '_', 'A', 'B', 'C', 'both', 'grp'} (B: groups "grp both", C: "xgrp both");
     every declaration (= rank) order of A, B, C; parents with marks in {absent, '', '_', 'A', 'B C', 'grp'}.
     Returns [(id, spec)]."""
     import itertools
 
-    ex_opts = [None, "", "_", "A", "B", "C", "B C", "grp"]
+    # groups: B is in "grp" and "both", C in "xgrp" (a name that merely CONTAINS "grp") and "both"
+    ex_opts = [None, "", "_", "A", "B", "C", "both", "grp"]
     out = []
     orders = orders or list(itertools.permutations(["A", "B", "C"]))
     for oi, order in enumerate(orders):
@@ -141,7 +142,7 @@ def mark_family_specs(orders=None):
                         if name == "A":
                             ms["attrs"] = {"id": {"default": 0}}
                         else:
-                            ms["group"] = "grp"
+                            ms["group"] = "grp both" if name == "B" else "xgrp both"
                         if ex[name] is not None:
                             ms["excludes"] = ex[name]
                         marks[name] = ms
@@ -152,6 +153,7 @@ def mark_family_specs(orders=None):
                         "p_all": {"content": "inline*", "group": "block", "marks": "_"},
                         "p_A": {"content": "inline*", "group": "block", "marks": "A"},
                         "p_BC": {"content": "inline*", "group": "block", "marks": "B C"},
+                        "p_both": {"content": "inline*", "group": "block", "marks": "both"},
                         "p_grp": {"content": "inline*", "group": "block", "marks": "grp"},
                         "box": {"content": "block+", "group": "block"},
                         "text": {"group": "inline"},
